@@ -152,7 +152,7 @@ func c08(c *Ctx) {
 		"Definition reps : list (string * operand) := " + cList(reps) + ".\n"
 	o.WriteFile("Tab.v", tab)
 	o.Stage("Tab.v")
-	o.Oblig("Tab.pass_order_ok", "Tab.info_constants_ok")
+	o.Oblig("Tab.info_constants_ok")
 
 	// complete enumeration through the real Context.Load / Context.Store
 	var cases []string
